@@ -72,7 +72,20 @@ fn charstr(rng: &mut Rng) -> Vec<u8> {
     v
 }
 
-const TYPES: [u16; 17] = [1, 28, 2, 5, 12, 39, 15, 6, 16, 33, 14, 35, 47, 48, 43, 257, 65280];
+/// a short character string of random length (0..4 letters), optionally
+/// ending in the record's index
+fn istr(rng: &mut Rng, idx: Option<u8>) -> Vec<u8> {
+    let n = rng.below(4) as usize;
+    let mut v = vec![0u8];
+    v.extend((0..n).map(|_| b'a' + rng.below(3) as u8));
+    if let Some(i) = idx {
+        v.push(b'0' + i);
+    }
+    v[0] = (v.len() - 1) as u8;
+    v
+}
+
+const TYPES: [u16; 18] = [1, 28, 2, 5, 12, 39, 15, 6, 16, 33, 14, 35, 47, 48, 43, 257, 65280, 13];
 
 /// field-structured RDATA number `i` of an RRset of type `t`
 fn rdata(rng: &mut Rng, t: u16, i: usize) -> Value {
@@ -98,10 +111,21 @@ fn rdata(rng: &mut Rng, t: u16, i: usize) -> Value {
         }
         33 => json!([raw(vec![0, rng.below(3) as u8, 0, rng.below(3) as u8, rng.next() as u8, ib]), nm(&name(rng, 3))]),
         14 => json!([nm(&iname(rng, i)), nm(&name(rng, 3))]),
+        13 => {
+            // HINFO: the records differ first in character strings of
+            // different lengths (the length octet sorts first, RFC 4034 6.3)
+            let first = if rng.chance(1, 2) { Some(ib) } else { None };
+            let mut v = istr(rng, first);
+            v.extend(istr(rng, Some(ib)));
+            json!([raw(v)])
+        }
         35 => {
-            let mut v = vec![0, rng.below(3) as u8, 0, ib];
-            v.extend(charstr(rng));
-            v.extend(charstr(rng));
+            // order / preference often equal within the RRset: the character
+            // strings (of different lengths) decide the order
+            let mut v = vec![0, rng.below(2) as u8, 0, rng.below(2) as u8];
+            let first = if rng.chance(1, 2) { Some(ib) } else { None };
+            v.extend(istr(rng, first));
+            v.extend(istr(rng, Some(ib)));
             v.extend(charstr(rng));
             json!([raw(v), nm(&name(rng, 3))])
         }
@@ -131,8 +155,11 @@ fn rdata(rng: &mut Rng, t: u16, i: usize) -> Value {
             json!([raw(v)])
         }
         257 => {
-            let mut v = vec![rng.below(2) as u8 * 128, 5];
+            // tags of different lengths under equal flags
+            let extra = rng.below(4) as usize;
+            let mut v = vec![rng.below(2) as u8 * 128, 5 + extra as u8];
             v.extend(b"issue");
+            v.extend((0..extra).map(|_| b'a' + rng.below(26) as u8));
             let n = rng.below(10) as usize;
             v.extend(rng.bytes(n).iter().map(|b| b'a' + b % 26));
             v.push(b'0' + ib);
